@@ -150,6 +150,12 @@ func (c *C) SliceS(s []string) ([]string, error) { return ret[[]string](c), c.re
 func (c *C) StatOnly(a int) *Stat                { c.rec("StatOnly", a); return ret[*Stat](c) }
 func (c *C) StatErr(a int) (*Stat, error)        { return ret[*Stat](c), c.rec("StatErr", a) }
 
+// variadic methods: on the wire the variadic arguments are one array, the last positional parameter
+func (c *C) Var(tag string, xs ...int) (int, error) { return ret[int](c), c.rec("Var", tag, xs) }
+func (c *C) VarCtx(ctx context.Context, ss ...string) (string, error) {
+	return ret[string](c), c.rec("VarCtx", ctx, ss)
+}
+
 type Client struct {
 	V0       func()
 	E0       func() error
@@ -178,6 +184,8 @@ type Client struct {
 	SliceS   func([]string) ([]string, error)
 	StatOnly func(int) *Stat
 	StatErr  func(int) (*Stat, error)
+	Var      func(string, ...int) (int, error)
+	VarCtx   func(context.Context, ...string) (string, error)
 }
 
 // SigDesc: the model's view of a signature (hand-written).
@@ -218,6 +226,8 @@ var sigs = []SigDesc{
 	{Name: "SliceS", PTypes: []string{"[]string"}, Out: "valerr", VTy: "[]string"},
 	{Name: "StatOnly", PTypes: []string{"int"}, Out: "val", VTy: "*Stat"},
 	{Name: "StatErr", PTypes: []string{"int"}, Out: "valerr", VTy: "*Stat"},
+	{Name: "Var", PTypes: []string{"string", "[]int"}, Out: "valerr", VTy: "int"},
+	{Name: "VarCtx", Ctx: true, PTypes: []string{"[]string"}, Out: "valerr", VTy: "string"},
 }
 
 var strPool = []string{"", "a", "<script>alert('x')&amp;</script>", "tab\there", "nl\nline", "\u0000\u0001\u001f", "héllo ✓ 日本語 🎉", `quote " and \ backslash`, "  ", strings.Repeat("x", 300), "null", "[1,2]"}
@@ -504,7 +514,11 @@ func one(d *fw.Driver, res *fw.Result, r *rand.Rand, e *env, s SigDesc, tr strin
 				err = fmt.Errorf("client panicked: %v", p)
 			}
 		}()
-		outs = fn.Call(args)
+		if fn.Type().IsVariadic() {
+			outs = fn.CallSlice(args) // the variadic arguments are passed as the slice they are
+		} else {
+			outs = fn.Call(args)
+		}
 	}()
 	select {
 	case <-doneCh:
